@@ -446,3 +446,41 @@ contract(F, "ReverseRule.forward_map", props=["C07"], aliases={"Any": ObjA}, len
              "forall(lambda i: implies(0 <= i and i < len(objs) and i != caller_self.idx, is_none(objs[i])))"]},
          modifies=["all:Obj('AbstractRule')", "all:List(Opt(Any))", "all:List(Any)"],
          notes="the object is placed at position idx of the original rule's children and mapped backward")
+
+# ------------------------------------------------------------------ C07: Rule._ensure_level_objects (object cache discipline)
+ObjLevel = Opaque("ObjectsLevel")          # one level of the cache: a defaultdict parameters -> list of objects (untracked)
+REG.classes["AbstractRule"].fields.update({"objects_cache": List(ObjLevel)})
+contract("comb_spec_searcher/strategies/constructor/base.py", "ConstructorAny.get_sub_objects", source="Constructor.get_sub_objects",
+         props=["C07"], verify=False,
+         trusted_reason="abstract method: DisjointUnion.get_sub_objects is verified under C07, the product's is bounded",
+         params={"self": Obj("ConstructorAny"), "subobjs": Seq(Fun("objects")), "n": Int},
+         returns=Seq(Tup(Opaque("Any"), Seq(Seq(Opaque("Any"))))), yields=["True"], modifies=[])
+contract(F, "Rule._ensure_level_objects", props=["C07", "C01"], lenient=True, aliases={"ObjectsLevel": ObjLevel},
+         params={"self": Obj("Rule"), "n": Int},
+         raises=[("RuntimeError", "is_none(self.subobjects)")], may_raise=["StrategyDoesNotApply"],
+         pure_calls=["backward_map"],
+         ensures=["len(self.objects_cache) > n", "len(self.objects_cache) >= old(len(self.objects_cache))",
+                  "implies(n < old(len(self.objects_cache)), len(self.objects_cache) == old(len(self.objects_cache)))",
+                  "forall(lambda k: implies(0 <= k and k < old(len(self.objects_cache)), "
+                  "self.objects_cache[k] == old(self.objects_cache[k])))"],
+         # level k is built from the constructor's sub-objects of size exactly k, with the rule's own providers
+         call_requires={"ConstructorAny.get_sub_objects": ["same(self, ctor_of(caller_self))", "n == len(caller_self.objects_cache)",
+                                                           "subobjs == val(caller_self.subobjects)"]},
+         loops={0: dict(invariant=["len(self.objects_cache) >= at('loop0', len(self.objects_cache))",
+                                   "implies(n < at('loop0', len(self.objects_cache)), len(self.objects_cache) == at('loop0', len(self.objects_cache)))",
+                                   "forall(lambda k: implies(0 <= k and k < at('loop0', len(self.objects_cache)), "
+                                   "self.objects_cache[k] == at('loop0', self.objects_cache[k])))"],
+                        modifies=["*self.objects_cache", "self._constructor"]),
+                1: dict(invariant=[], modifies=[]), 2: dict(invariant=[], modifies=[])},
+         modifies=["*self.objects_cache", "self._constructor"],
+         notes="levels are appended in order, each computed for its own size; cached levels are never rewritten")
+
+contract(F, "Rule.get_objects", source="AbstractRule.get_objects", props=["C07", "C01"], aliases={"ObjectsLevel": ObjLevel},
+         params={"self": Obj("Rule"), "n": Int}, returns=ObjLevel, requires=["n >= 0"],
+         raises=[("RuntimeError", "is_none(self.subobjects)")], may_raise=["StrategyDoesNotApply"],
+         ensures=["result == self.objects_cache[n]", "len(self.objects_cache) > n",
+                  "implies(n < old(len(self.objects_cache)), result == old(self.objects_cache[n]))",
+                  "forall(lambda k: implies(0 <= k and k < old(len(self.objects_cache)), "
+                  "self.objects_cache[k] == old(self.objects_cache[k])))"],
+         modifies=["*self.objects_cache", "self._constructor"],
+         notes="the level for size n itself is returned; a cached level is returned unchanged")
